@@ -80,7 +80,7 @@ def bind(chk: Check, tier: str, seed: int):
     for pm in PREFS:
         decs[json.dumps(pm, sort_keys=True)] = NMEA2000Decoder(preferred_units={PhysicalQuantities[k]: v for k, v in pm.items()})
     recs, meta = [], []
-    defs = [d for d in db["defs"] if d["decodable"] and d["static"] and any(f["qty"] for f in d["fields"])]
+    defs = [d for d in db["defs"] if d["decodable"] and any(f["qty"] for f in d["fields"])]      # (definitions with text fields included)
     if tier == "selftest":
         defs = defs[::3]
     convertible = {c["qty"] for c in conv}
